@@ -37,6 +37,7 @@ import (
 	"massnet.org/mass/poc/engine/massdb"
 	massdb_v1 "massnet.org/mass/poc/engine/massdb/massdb.v1"
 	"massnet.org/mass/poc/engine/spacekeeper/capacity"
+	"massnet.org/mass/poc/wallet/keystore"
 
 	"verifharness/vh"
 )
@@ -334,9 +335,10 @@ func (d *fakeDB) filesExist() bool {
 // ------------------------------------------------------------------ scripted wallet
 
 type fakeWallet struct {
-	mu   sync.Mutex
-	keys []*pocec.PrivateKey
-	rng  interface{ Read([]byte) (int, error) }
+	mu     sync.Mutex
+	locked bool
+	keys   []*pocec.PrivateKey
+	rng    interface{ Read([]byte) (int, error) }
 }
 
 func (w *fakeWallet) GenerateNewPublicKey() (*pocec.PublicKey, uint32, error) {
@@ -362,9 +364,32 @@ func (w *fakeWallet) GetPublicKeyOrdinal(pk *pocec.PublicKey) (uint32, bool) {
 func (w *fakeWallet) SignMessage(pk *pocec.PublicKey, hash []byte) (*pocec.Signature, error) {
 	return nil, errors.New("not needed")
 }
-func (w *fakeWallet) Unlock([]byte) error { return nil }
-func (w *fakeWallet) Lock()               {}
-func (w *fakeWallet) IsLocked() bool      { return false }
+
+// lock state as the API's wallet handlers see it (the keeper itself never asks); the rest of mining.PoCWallet is unused
+func (w *fakeWallet) Unlock(p []byte) error {
+	w.mu.Lock()
+	defer w.mu.Unlock()
+	if string(p) != goodPass {
+		return errors.New("wrong passphrase")
+	}
+	w.locked = false
+	return nil
+}
+func (w *fakeWallet) Lock()          { w.mu.Lock(); w.locked = true; w.mu.Unlock() }
+func (w *fakeWallet) IsLocked() bool { w.mu.Lock(); defer w.mu.Unlock(); return w.locked }
+func (w *fakeWallet) ChangePrivPassphrase(_, _ []byte, _ *keystore.ScryptOptions) error {
+	return errors.New("unused")
+}
+func (w *fakeWallet) ChangePubPassphrase(_, _ []byte, _ *keystore.ScryptOptions) error {
+	return errors.New("unused")
+}
+func (w *fakeWallet) ExportKeystore(string, []byte) ([]byte, error)  { return nil, errors.New("unused") }
+func (w *fakeWallet) GetManagedAddrManager() []*keystore.AddrManager { return nil }
+func (w *fakeWallet) ImportKeystore([]byte, []byte, []byte) (string, string, error) {
+	return "", "", errors.New("unused")
+}
+
+const goodPass, badPass = "goodpass1", "badpass22"
 
 // ------------------------------------------------------------------ gates
 
@@ -444,6 +469,7 @@ type drv struct {
 	at      string // where the plotter goroutine is: "none", a gate name, "inplot", "exited"
 	running bool
 	cur     *fakeDB
+	wal     *fakeWallet
 	srv     *api.Server // Api scenarios: the gRPC handlers over this keeper and a scripted miner
 	miner   *fakeMiner
 }
@@ -488,6 +514,10 @@ func apiRes(res, msg string, err error) string {
 			return "invalid"
 		case api.ErrAPIMinerNoConfig:
 			return "noconfig"
+		case api.ErrAPIWalletIsMining:
+			return "mining"
+		case api.ErrAPIWalletInternal:
+			return "walleterr"
 		}
 		return fmt.Sprintf("status-%d", int(st.Code()))
 	}
@@ -732,6 +762,7 @@ func (d *drv) project(ev vh.Event) {
 		}
 		ev["apist"] = apist
 		ev["miner"] = d.miner.Started()
+		ev["locked"] = d.wal.IsLocked()
 	}
 }
 
@@ -792,7 +823,9 @@ func run(sc vh.Scenario, dir string, rec *vh.Rec) {
 	}
 	if b, _ := sc.Opt["api"].(bool); b {
 		d.miner = &fakeMiner{}
-		d.srv = api.VerifServer(d.miner, nil, mining.NewConfigurableSpaceKeeperV1(sk))
+		wal.locked = true // a node starts with a locked wallet
+		d.wal = wal
+		d.srv = api.VerifServer(d.miner, wal, mining.NewConfigurableSpaceKeeperV1(sk))
 	}
 	// the first event fixes the initial state
 	ev0 := vh.Event{"a": "Init", "order": order}
@@ -941,6 +974,14 @@ func run(sc vh.Scenario, dir string, rec *vh.Rec) {
 					_, herr = d.srv.StopCapacitySpaces(ctx, &empty.Empty{})
 				case "StopOne":
 					_, herr = d.srv.StopCapacitySpace(ctx, &pb.WorkSpaceRequest{SpaceId: sid})
+				case "Lock":
+					_, herr = d.srv.LockWallet(ctx, &empty.Empty{})
+				case "Unlock":
+					pp := badPass
+					if st.Bool("good") {
+						pp = goodPass
+					}
+					_, herr = d.srv.UnlockWallet(ctx, &pb.UnlockWalletRequest{Passphrase: pp})
 				default:
 					herr = errors.New("unknown call")
 				}
